@@ -162,6 +162,12 @@ pub struct RxCfg {
     /// the socket has served an earlier connection (which left out-of-order data behind and
     /// was reset) before the connection under test
     pub reuse: bool,
+    /// stray segments (bare FINs, FIN|ACK, data without ACK, at several sequence numbers) reach
+    /// the socket while it is still in LISTEN / SYN-SENT, before the handshake under test
+    pub stray: bool,
+    /// alphabet includes reads during which the device refuses to transmit (the window update
+    /// that follows the read never reaches the wire)
+    pub bp: bool,
 }
 
 #[derive(Clone, Debug, PartialEq)]
@@ -170,6 +176,13 @@ pub enum RxEv {
     Seg { o: usize, len: usize },
     Recv(usize),
     Tick,
+    /// the peer resets the connection (RST exactly at RCV.NXT); afterwards only reads happen:
+    /// end-of-stream must not be reported for a stream whose FIN never arrived
+    Rst,
+    /// application read followed by a poll during which the device accepts no frame; the device
+    /// accepts again afterwards (nothing is polled then). Whatever window the socket WANTED to
+    /// announce was not advertised: the model's right edge stays where the wire last put it
+    RecvBlocked(usize),
 }
 
 pub struct Rx {
@@ -184,6 +197,7 @@ pub struct Rx {
     fin_eligible: bool,
     delivered: usize,
     finished: bool,
+    reset: bool,
     pending: Vec<Viol>,
 }
 
@@ -306,6 +320,18 @@ impl Harness for Rx {
         let iss;
         if cfg.server {
             w.sock().listen(LPORT).unwrap();
+            if cfg.stray {
+                for sq in [0u32, 5, 0x7fff_ffff, 0x8000_0000, 0x9000_0000, 0xffff_ffff, p, p.wrapping_add(1)] {
+                    w.ingress_single(build_seg(sq, None, wc::TCP_FIN, 1000, &[], &[]));
+                    w.ingress_single(build_seg(sq, Some(12345), wc::TCP_FIN, 1000, &[], &[]));
+                    w.ingress_single(build_seg(sq, None, 0, 1000, &[], &[0xdd, 0xdd]));
+                    w.ingress_single(build_seg(sq, None, wc::TCP_FIN | wc::TCP_PSH, 1000, &[], &[0xdd]));
+                    w.egress();
+                }
+                if w.state() != State::Listen {
+                    panic!("stray segments moved the listening socket to {}", w.state());
+                }
+            }
             frames = w.ingress_single(build_seg(p, None, wc::TCP_SYN, 1000, &ws_opt, &[]));
             frames.extend(w.egress());
             let sa = frames.iter().filter_map(|f| parse_out(f)).find(|t| t.has(wc::TCP_SYN)).expect("SYN-ACK");
@@ -336,6 +362,7 @@ impl Harness for Rx {
             fin_eligible: false,
             delivered: 0,
             finished: false,
+            reset: false,
             pending: vec![],
         };
         h.observe(&frames);
@@ -367,9 +394,18 @@ impl Harness for Rx {
                 }
             }
         }
+        if self.reset {
+            v.clear(); // a closed socket answers segments with RST; nothing more to learn
+        } else {
+            v.push((RxEv::Rst, 0));
+        }
         v.push((RxEv::Recv(1), 0));
         v.push((RxEv::Recv(2), 0));
         v.push((RxEv::Recv(usize::MAX), 0));
+        if self.cfg.bp && !self.reset {
+            v.push((RxEv::RecvBlocked(2), 0));
+            v.push((RxEv::RecvBlocked(usize::MAX), 0));
+        }
         v.push((RxEv::Tick, 0));
         v
     }
@@ -400,6 +436,22 @@ impl Harness for Rx {
                 let f = self.w.poll();
                 self.observe(&f);
             }
+            RxEv::Rst => {
+                let seq = self.base.wrapping_add(self.r_off as u32);
+                self.w.dev.rx.push_back(build_seg(seq, Some(self.iss.wrapping_add(1)), wc::TCP_RST, 0, &[], &[]));
+                let f = self.w.poll();
+                self.reset = true;
+                self.observe(&f);
+            }
+            RxEv::RecvBlocked(n) => {
+                self.app_recv(n);
+                self.w.dev.tx_budget = Some(0);
+                let f = self.w.poll();
+                self.w.dev.tx_budget = None;
+                if !f.is_empty() {
+                    self.pending.push(Viol::new("MACHINERY/blocked-device-transmitted", format!("{} frames", f.len())));
+                }
+            }
             RxEv::Recv(n) => {
                 self.app_recv(n);
                 let f = self.w.poll();
@@ -419,8 +471,8 @@ impl Harness for Rx {
     }
     fn fingerprint(&self) -> u128 {
         let s = format!(
-            "{:?}|{}|{}|{:?}|{}|{}|{}|{}",
-            self.w.sockets, self.r_off, self.e_off, self.eligible, self.fin_eligible, self.delivered, self.finished, self.w.now
+            "{:?}|{}|{}|{:?}|{}|{}|{}|{}|{}",
+            self.w.sockets, self.r_off, self.e_off, self.eligible, self.fin_eligible, self.delivered, self.finished, self.w.now, self.reset
         );
         fp128(&s)
     }
@@ -432,7 +484,7 @@ impl Harness for Rx {
 pub fn rx_configs(tier: Tier) -> Vec<(RxCfg, usize)> {
     let mut v = vec![];
     let (d_small, d_big) = if tier == Tier::Quick { (6, 3) } else { (9, 4) };
-    let base = RxCfg { name: "srv", rx: 4, l: 6, peer_isn: 0xffff_fffd, server: true, wscale: false, peer_ws: 0, reuse: false };
+    let base = RxCfg { name: "srv", rx: 4, l: 6, peer_isn: 0xffff_fffd, server: true, wscale: false, peer_ws: 0, reuse: false, stray: false, bp: false };
     for &(rx, l) in &[(2usize, 6usize), (3, 6), (4, 6), (8, 10), (64, 10)] {
         v.push((RxCfg { rx, l, ..base.clone() }, d_small));
     }
@@ -442,6 +494,11 @@ pub fn rx_configs(tier: Tier) -> Vec<(RxCfg, usize)> {
     // the peer announces a larger window scale than ours (ours is 0 for small buffers)
     v.push((RxCfg { name: "peer-ws5", rx: 8, l: 12, wscale: true, peer_ws: 5, ..base.clone() }, d_small));
     v.push((RxCfg { name: "peer-ws5-cli", rx: 8, l: 12, wscale: true, peer_ws: 5, server: false, peer_isn: 77, ..base.clone() }, d_small));
+    // reads whose window update is lost inside the device
+    v.push((RxCfg { name: "blocked-window-update", rx: 4, l: 8, bp: true, ..base.clone() }, d_small));
+    v.push((RxCfg { name: "blocked-window-update-rx64", rx: 64, l: 130, bp: true, peer_isn: 0x7fff_ffc0, ..base.clone() }, d_small.min(5)));
+    // stray FINs / data reach the listening socket before the handshake
+    v.push((RxCfg { name: "stray-before-syn", rx: 8, l: 6, stray: true, ..base.clone() }, d_small));
     // socket objects that served a connection before
     v.push((RxCfg { name: "reuse-srv", rx: 8, l: 10, reuse: true, ..base.clone() }, d_small));
     v.push((RxCfg { name: "reuse-cli", rx: 8, l: 10, reuse: true, server: false, peer_isn: 0x7fff_fff0, ..base.clone() }, d_small));
@@ -507,6 +564,13 @@ pub struct FsmCfg {
     /// octets written by the `Send1` API event (more than `peer_win`: the FIN of a later
     /// close() cannot follow the data at once, so FIN-WAIT-1 / LAST-ACK exist with the FIN unsent)
     pub send_len: usize,
+    /// RST-acceptance mode: delayed ACKs are ON (so a zero-window probe can piggy-back the ACK of
+    /// fresh data), the clock can advance without a poll (`Sleep1s`), the alphabet is cut down to
+    /// what the history needs, and ONLY transitions caused by RST segments are judged: with
+    /// delayed ACKs the observed RCV.NXT lags, which the other guards cannot tolerate, while the
+    /// RST guard can (the socket accepts a RST only in [RCV.NXT, last advertised edge), a subset
+    /// of the observed [last ACK sent, last advertised edge)).
+    pub rst_mode: bool,
 }
 
 #[derive(Clone, Debug, PartialEq)]
@@ -525,6 +589,8 @@ pub enum FsmEv {
     Api(Api),
     ToPollAt,
     Plus10s,
+    /// the clock advances by 1 s and nobody polls (only in `rst_mode`)
+    Sleep1s,
 }
 
 #[derive(Clone, Debug, Default)]
@@ -670,7 +736,8 @@ impl Fsm {
     }
 
     fn check(&mut self, from: State, to: State, stim: &Stim) {
-        if !self.allowed(from, to, stim) {
+        let judged = !self.cfg.rst_mode || matches!(stim, Stim::Seg { flags, .. } if flags & wc::TCP_RST != 0);
+        if judged && !self.allowed(from, to, stim) {
             let cause = match stim {
                 Stim::Api(a, ok) => format!("api-{:?}-{}", a, if *ok { "ok" } else { "err" }),
                 Stim::Egress(_) => "egress".to_string(),
@@ -761,10 +828,45 @@ impl Harness for Fsm {
     type Cfg = FsmCfg;
     type Ev = FsmEv;
     fn new(cfg: &FsmCfg) -> Fsm {
-        Fsm { cfg: cfg.clone(), w: One::new(cfg.rx, 8, 0x99), obs: Obs::default(), pending: vec![] }
+        let mut w = One::new(cfg.rx, 8, 0x99);
+        if cfg.rst_mode {
+            w.sock().set_ack_delay(Some(smoltcp::time::Duration::from_millis(10)));
+        }
+        Fsm { cfg: cfg.clone(), w, obs: Obs::default(), pending: vec![] }
     }
     fn enabled(&self) -> Vec<(FsmEv, u32)> {
         let mut v = vec![];
+        if self.cfg.rst_mode {
+            for a in [Api::Listen, Api::Send1, Api::Recv] {
+                v.push((FsmEv::Api(a), 0));
+            }
+            v.push((FsmEv::ToPollAt, 0));
+            v.push((FsmEv::Sleep1s, 0));
+            if self.w.state() == State::Closed {
+                return v;
+            }
+            let o = &self.obs;
+            let p = self.cfg.peer_isn;
+            let n = o.rcv_nxt.unwrap_or(p);
+            let e = o.edge.unwrap_or(n);
+            match o.iss {
+                None => v.push((FsmEv::Seg { flags: wc::TCP_SYN, seq: p, ack: None, len: 0 }, 0)),
+                Some(i) => {
+                    let a = Some(i.wrapping_add(1));
+                    let mut seqs = vec![n, e.wrapping_sub(1), e, e.wrapping_add(1)];
+                    seqs.sort();
+                    seqs.dedup();
+                    for &seq in &seqs {
+                        v.push((FsmEv::Seg { flags: wc::TCP_RST, seq, ack: None, len: 0 }, 0));
+                        v.push((FsmEv::Seg { flags: wc::TCP_RST, seq, ack: a, len: 0 }, 0));
+                    }
+                    v.push((FsmEv::Seg { flags: 0, seq: n, ack: a, len: 0 }, 0));
+                    v.push((FsmEv::Seg { flags: 0, seq: n, ack: a, len: 1 }, 0));
+                    v.push((FsmEv::Seg { flags: 0, seq: n.wrapping_add(1), ack: a, len: 1 }, 0));
+                }
+            }
+            return v;
+        }
         for a in [Api::Listen, Api::Connect, Api::Close, Api::Abort, Api::Send1, Api::Recv] {
             v.push((FsmEv::Api(a), 0));
         }
@@ -898,6 +1000,9 @@ impl Harness for Fsm {
                 self.w.now += 10_000_000;
                 self.egress_step();
             }
+            FsmEv::Sleep1s => {
+                self.w.now += 1_000_000;
+            }
         }
         out.append(&mut self.pending);
     }
@@ -912,14 +1017,16 @@ impl Harness for Fsm {
 pub fn fsm_configs(tier: Tier) -> Vec<(FsmCfg, usize)> {
     match tier {
         Tier::Quick => vec![
-            (FsmCfg { name: "full", peer_isn: 0xffff_fff0, rx: 8, reduced: false, peer_win: 500, send_len: 1 }, 5),
-            (FsmCfg { name: "reduced", peer_isn: 5000, rx: 8, reduced: true, peer_win: 500, send_len: 1 }, 7),
-            (FsmCfg { name: "reduced-win1-send3", peer_isn: 5000, rx: 8, reduced: true, peer_win: 1, send_len: 3 }, 6),
+            (FsmCfg { name: "full", peer_isn: 0xffff_fff0, rx: 8, reduced: false, peer_win: 500, send_len: 1, rst_mode: false }, 5),
+            (FsmCfg { name: "reduced", peer_isn: 5000, rx: 8, reduced: true, peer_win: 500, send_len: 1, rst_mode: false }, 7),
+            (FsmCfg { name: "reduced-win1-send3", peer_isn: 5000, rx: 8, reduced: true, peer_win: 1, send_len: 3, rst_mode: false }, 6),
+            (FsmCfg { name: "rst-window-zwp", peer_isn: 5000, rx: 8, reduced: true, peer_win: 0, send_len: 3, rst_mode: true }, 7),
         ],
         Tier::Thorough => vec![
-            (FsmCfg { name: "full", peer_isn: 0xffff_fff0, rx: 8, reduced: false, peer_win: 500, send_len: 1 }, 5),
-            (FsmCfg { name: "reduced", peer_isn: 5000, rx: 8, reduced: true, peer_win: 500, send_len: 1 }, 8),
-            (FsmCfg { name: "reduced-win1-send3", peer_isn: 5000, rx: 8, reduced: true, peer_win: 1, send_len: 3 }, 8),
+            (FsmCfg { name: "full", peer_isn: 0xffff_fff0, rx: 8, reduced: false, peer_win: 500, send_len: 1, rst_mode: false }, 5),
+            (FsmCfg { name: "reduced", peer_isn: 5000, rx: 8, reduced: true, peer_win: 500, send_len: 1, rst_mode: false }, 8),
+            (FsmCfg { name: "reduced-win1-send3", peer_isn: 5000, rx: 8, reduced: true, peer_win: 1, send_len: 3, rst_mode: false }, 8),
+            (FsmCfg { name: "rst-window-zwp", peer_isn: 5000, rx: 8, reduced: true, peer_win: 0, send_len: 3, rst_mode: true }, 9),
         ],
     }
 }
